@@ -1,12 +1,12 @@
 #!/bin/bash
 # Confirms a seeded change in its scratch worktree: tests green with the patch, demo fails with it, passes without.
 # usage: verify_seed.sh <ID> [worktree]   (default worktree /root/scratch/seed2-<ID>; deliverables in <worktree>-out)
-ID=$1; WT=${2:-/root/scratch/seed2-$ID}; OUT=$WT-out; export CARGO_TARGET_DIR=$WT-target CARGO_NET_OFFLINE=true
+ID=$1; WT=${2:-/root/scratch/seed7-$ID}; OUT=$WT-out; export CARGO_TARGET_DIR=$WT-target CARGO_NET_OFFLINE=true CARGO_PROFILE_DEV_DEBUG=0 CARGO_PROFILE_TEST_DEBUG=0
 cd $WT || exit 2
 {
 echo "== $ID: patch stat"; git diff --stat | tail -3
 echo "== tests with patch"
-cargo test --offline -p prqlc -p prqlc-parser 2>&1 | grep -E "^test result|FAILED|failed" | head -12
+cargo test --offline -p prqlc -p prqlc-parser -p mdbook-prql --no-fail-fast 2>&1 | grep -E "^test result|FAILED|failed" | head -12
 cp $OUT/demo.rs prqlc/prqlc/examples/seed_demo.rs
 echo "== demo with patch"; cargo run --offline -q -p prqlc --example seed_demo >$OUT/demo-with.txt 2>&1; echo "exit=$?"; tail -3 $OUT/demo-with.txt
 rm -f prqlc/prqlc/examples/seed_demo.rs
